@@ -129,6 +129,71 @@ def h_pipeline(eng, resname, ff, position, water):
             eng.check(got == want, "atom-set-equals-final-topology", note=f"residue {r} ({getattr(r, 'ffname', r.name)}): atoms {sorted(got ^ want)} differ from its topology (missing={omit[idx]}, foreign={foreign})")
 
 
+def h_states(eng, resname, ff):
+    """pKa-driven states, neutral termini and hydrogens already present in the input, all as symbolic
+    selectors through the real pipeline: the final model has exactly the atom set of its final topology"""
+    from pdb2pqr import aa, main
+
+    from . import c06
+
+    use_propka = eng.flag("titrate_with_propka")
+    protonate = eng.flag("propka_says_protonated") if use_propka else False
+    opt = eng.flag("opt")
+    debump = eng.flag("debump")
+    in_h3 = eng.flag("input_has_nterm_h3")
+    in_h2 = eng.flag("input_has_nterm_h2")
+    neutraln = eng.flag("neutraln") if ff == "parse" else False
+    neutralc = eng.flag("neutralc") if ff == "parse" else False
+    lines = fixtures.peptide_lines(["ALA", resname, "ALA"], ter=False)
+    nref = fixtures.pristine_definition().map["NALA"].map
+    for k, (flag, hn) in enumerate(((in_h3, "H3"), (in_h2, "H2"))):
+        if flag:
+            lines.append(fixtures.atom_line(600 + k, hn, "ALA", "A", 1, nref[hn].x, nref[hn].y, nref[hn].z))
+    # complete C-terminus (otherwise heavy-atom repair runs and deletes unknown atoms as 'extra')
+    oxt = fixtures.pristine_definition().map["CALA"].map["OXT"]
+    lines.append(fixtures.atom_line(650, "OXT", "ALA", "A", 3, oxt.x - 7.6, oxt.y, oxt.z))
+    lines = sorted(lines, key=lambda ln: (int(ln[22:26]), int(ln[6:11]))) + ["TER"]
+    pk = 12.0 if protonate else 1.0
+    stub = c06._propka_stub({"group": pk, "N+": 8.0, "C-": 3.0})
+    try:
+        bm, defn = fixtures.prepared(lines, neutraln=neutraln, neutralc=neutralc)
+        args = fixtures.Args(ff=ff, pka_method="propka" if use_propka else None, ph=7.0, debump=debump, opt=opt, neutraln=neutraln, neutralc=neutralc, keep_chain=True)
+        with patched((main, "run_propka", stub)):
+            result = main.non_trivial(args, bm, None, defn, False)
+    except (ValueError, TypeError, KeyError, IndexError, AttributeError) as e:
+        eng.check(True, "loud-failure-tolerated", note=type(e).__name__)
+        eng.note(f"raised {type(e).__name__}: {str(e)[:70]}")
+        return
+    eng.note(f"{resname} protonate={protonate} opt={opt} H3in={in_h3} H2in={in_h2} neutraln={neutraln} neutralc={neutralc} -> {[r.ffname for r in bm.residues]}")
+    missed = result["missed_residues"]
+    printed = [ln for ln in result["lines"] if ln.startswith(("ATOM", "HETATM"))]
+    eng.check(len(printed) + len(missed) == len(bm.atoms), "written-or-unassigned")
+    for r in bm.residues:
+        names = [a.name for a in r.atoms]
+        eng.check(len(names) == len(set(names)), "no-duplicate-names", note=f"{r}: {names}")
+        if not isinstance(r, aa.Amino):
+            continue
+        # (a) nothing of the residue's final topology is missing (alternatives of optimisable groups aside: judged by the force field)
+        mine = [a for a in missed if a.residue is r]
+        # (b) an unassigned atom that belongs to ANOTHER state of this residue (a spare proton double, a terminal
+        #     hydrogen of the other terminus kind) is a leftover the pipeline should have removed: invented / not cleaned up
+        family = FAMILY.get(r.name, [r.name])
+        other_state_names = set()
+        for base in family:
+            for pre in ("", "N", "C", "NEUTRAL-N", "NEUTRAL-C"):
+                d = fixtures.pristine_definition().map.get(pre + base)
+                if d is not None:
+                    other_state_names |= set(d.map)
+        left = [a.name for a in mine if a.name in other_state_names]
+        eng.check(not left, "no-leftover-atoms-of-another-state", note=f"residue {r} ({r.ffname}): {left} belong to another protonation/terminal state of this residue, are still in the final model and end up unassigned (propka protonated={protonate}, opt={opt}, input H3={in_h3}, H2={in_h2}, neutraln={neutraln}, neutralc={neutralc})")
+        if not mine:
+            hs_ = [n for n in names if n.startswith("H")]
+            eng.check(len(hs_) > 0, "hydrogens-present")
+
+
+FAMILY = {"ASP": ["ASP", "ASH"], "GLU": ["GLU", "GLH"], "HIS": ["HIS", "HID", "HIE", "HIP"], "LYS": ["LYS", "LYN"], "TYR": ["TYR", "TYM"], "CYS": ["CYS", "CYM", "CYX"], "ARG": ["ARG", "AR0"]}
+
+
 def h_water_complete(eng, order_index):
     """real Water.complete on a water whose hydrogens / lone pairs (and their order in the atom list) are symbolic"""
     from pdb2pqr import debump, hydrogens
@@ -169,6 +234,8 @@ def obligations(tier):
     plan = [("SER", "amber", "internal", True), ("GLY", "parse", "internal", False), ("CYS", "charmm", "cterm", False), ("SER", "amber", "nterm", False)] if tier == "quick" else [(r, ff, pos, w) for r in ("SER", "GLY", "CYS", "ASP") for ff, w in (("amber", True), ("parse", False)) for pos in ("nterm", "internal", "cterm")]
     for r, ff, pos, w in plan:
         obs.append(Obligation(f"pipeline-{r}-{ff}-{pos}{'-water' if w else ''}", h_pipeline, dict(resname=r, ff=ff, position=pos, water=w), group="pipeline", time_cap=3000, max_paths=100000))
+    for r, ff in (("ASP", "amber"), ("GLU", "parse"), ("LYS", "parse"), ("HIS", "amber")) if tier == "quick" else [(r, ff) for r in ("ASP", "GLU", "LYS", "HIS", "TYR", "CYS") for ff in ("amber", "parse", "charmm")]:
+        obs.append(Obligation(f"states-{r}-{ff}", h_states, dict(resname=r, ff=ff), group="states", time_cap=3000, max_paths=100000))
     for k in range(24):
         obs.append(Obligation(f"water-complete-order{k}", h_water_complete, dict(order_index=k), group="water-complete", time_cap=1200))
     # K1: first occurrence wins at ingestion (C07's harness, the record kinds that duplicate atoms)
